@@ -57,7 +57,7 @@ def ks_instances(tier="thorough"):
                                 symbolic=["input ciphertext words (see symbolic_input_words; the rest a fixed digit pattern)", "prior output content", "key-switch scratch (exactly glwe_keyswitch_tmp_bytes)"], stubs=KS_STUBS,
                                 functions=["poulpy-core/src/keyswitching/glwe.rs::glwe_keyswitch / glwe_keyswitch_assign (+ tmp_bytes)", "poulpy-core/src/encryption/glwe_switching_key.rs::glwe_switching_key_encrypt_sk", "poulpy-core/src/encryption/gglwe.rs",
                                            "poulpy-core/src/layouts/prepared/{glwe_switching_key,gglwe}.rs::prepare", "poulpy-core/src/decryption/glwe.rs::glwe_decrypt_default"] + PROBE8,
-                                timeout=7200 if nsym == 999 else 2400, mem_gb=28, core=core))
+                                timeout=2400, mem_gb=28, core=core))
     return out
 
 
